@@ -81,6 +81,8 @@ def build_mat(entry):
         return a
     if kind == "eye":
         return np.eye(d)           # an EXACT identity factor (A (x) 1 and 1 (x) A terms)
+    if kind == "diag":
+        return np.diag(r.randint(-2, 3, size=d).astype(float))   # diagonal (Z-type) generator: keeps a GHZ spectrum degenerate
     raise ValueError(kind)
 
 
@@ -373,6 +375,9 @@ class C08(Prop):
             cases.append({"kind": "tebd", "seed": rng.randrange(10 ** 9), "nnodes": rng.choice([2, 2, 3, 3, 3, 4, 4, 5, 6]),
                           "nsteps": rng.choice([1, 1, 2, 3]), "trunc": j % 3 == 2, "malformed": j % 8 == 7,
                           "ints": j % 5 == 0})
+        for j in range(ctx.scale(8, 60) * budget_scale):
+            cases.append({"kind": "tebd", "seed": rng.randrange(10 ** 9), "nnodes": rng.choice([2, 3, 4, 4, 5]), "nsteps": rng.choice([1, 2]),
+                          "trunc": True, "malformed": False, "ints": False, "ghz": True})
         return cases
 
     def nontrivial(self, case):
@@ -479,9 +484,15 @@ class C08(Prop):
         from pytreenet.util.tensor_splitting import SVDParameters
         rng = random.Random(case["seed"])
         nn = case["nnodes"]
-        drv = Driver(ttn_cls=TTNS, nprs=np.random.RandomState(case["seed"] % (2 ** 31)), ints=2 if case.get("ints") else None)
+        ghz = bool(case.get("ghz"))
+        drv = Driver(ttn_cls=TTNS, nprs=np.random.RandomState(case["seed"] % (2 ** 31)), ints=2 if case.get("ints") else None, ghz=ghz)
         dimc = rng.choice([(2,), (2, 3), (2, 3), (1, 2, 3), (2, 2, 3)])
         nopen = (1,) if (nn <= 2 or case.get("contr_name")) else (1, 1, 1, 1, 1, 1, 0, 2)
+        if ghz:
+            # GHZ-like state (copy tensors, one dimension everywhere) under diagonal generators: the Schmidt spectrum on
+            # every bond is exactly degenerate, so a binding max_bond_dim has to cut THROUGH a degenerate group
+            dimc = (rng.choice([2, 3, 4]),)
+            nopen = (1,)
         ops = gen_build(rng, nn, nopen_choices=nopen, dim_choices=dimc)
         if case.get("contr_name"):
             # rename a node that will not take part in the first two-site gate to the reserved name
@@ -506,7 +517,7 @@ class C08(Prop):
         if not elig:
             return {"skip": "no node with exactly one open leg"}
         spec = gen_spec(rng, site_dims, edges, rng.randrange(1, 6), allow3=False, from_lists_p=0.25,
-                        mats_kinds=("nil",) if case.get("ints") else ("gen", "gen", "real", "herm", "nil"))
+                        mats_kinds=("diag",) if ghz else ("nil",) if case.get("ints") else ("gen", "gen", "real", "herm", "nil"))
         if case.get("contr_name") and edges:
             a, b = edges[0]
             spec["mats"] += [[site_dims[a], "gen", 1], [site_dims[b], "gen", 2]]
